@@ -156,6 +156,36 @@ CHECKS["C08"] = ("model_checking",
     "the public call returns, association and provider threads end, the OS socket is closed within the sum of the configured timeouts + 1.5 s.",
     "Trusted: short timeouts (0.6/0.6/0.8/1.0 s); loopback; one incomplete PDU per scenario. Mid-PDU stalls are the open finding D9.", "§6 C08", "stall")
 
+CHECKS["C14"] = ("model_checking",
+    "TLA+ AcceptLimit spec (negotiation threads: spawn, reading of the alive acceptor threads + decision, establish / rejected, end; several listening servers of one AE, server restart) model-checked by TLC for every "
+    "interleaving: C14_Bound / C14_BoundCommitted / C14_Reason hold for the code's reading, the readings 'established only' and 'associations of registered servers only' are refuted; one witness history per reachable state "
+    "is replayed on a real acceptor AE with the negotiation threads parked in user handlers (S2C) and every replay and free-running stress run judged by the Trace_Limit spec (C2S)",
+    "4 requests / Max 2 / one server restarted once (129k states), 3 requests / Max 1 / two servers (49k states), thorough also 5 requests / Max 3: about 190 (quick) / 4600 (thorough) histories stepped on real threads with the "
+    "established count read after every step, plus 12 (40) stress runs of Max+0..8 concurrent raw requestors with the count sampled every 0.5 ms; reject PDUs must carry (2, 3, 2).",
+    "Trusted: parking points EVT_ASYNC_OPS (just before the reading) and EVT_ACSE_SENT (decision taken, is_established not yet set); raw requestors on loopback.", "§6 C14", "limit")
+CHECKS["C26"] = ("model_checking",
+    "TLA+ Notify spec (protocol script with the notification events around each step and the intervention handler of request / negotiation steps; any subset of invocations raises; handler flavours) model-checked by TLC: "
+    "C26_SameExchange / C26_Contained hold when trigger() catches and its report line cannot fail, both broken designs are refuted; deterministic user scripts are run on two real AEs quiet and raising (S2C) and each pair "
+    "of runs compared by the Trace_Exchange spec; DIMSE intervention handlers raising five exception kinds are judged by the Trace_Scp spec, negotiation interventions directly (C2S)",
+    "About 27 (quick) / all single-thread scripts (thorough) x {every invocation, every invocation of one of the 17 notification events, seeded random subsets} x handler flavour {function, callable object, partial, "
+    "exception without arguments, exception whose str() fails}: PDUs, DIMSE messages, outcomes and user-visible results equal to the quiet run; every DIMSE service with a handler raising RuntimeError / FileNotFoundError / "
+    "TimeoutError / KeyError / Exception(); EVT_ASYNC_OPS, EVT_SOP_COMMON, EVT_SOP_EXTENDED, EVT_USER_ID raising.",
+    "Trusted: scripts without second-thread actions are their own reference (run twice; a difference must reproduce); the recorder wraps events.trigger.", "§6 C26", "notify")
+
+CHECKS["C18"] = ("model_checking",
+    "TLA+ CtxSelect spec (the five C18 predicates over accepted contexts, operation and result; a reference chooser) with MC_Ctx model-checked by TLC: the reference satisfies C18 on all 36610 cases "
+    "(every set of at most two accepted contexts over 4 abstract syntaxes x 5 transfer syntaxes x 3 role pairs, 10 send operations); the cases are run through the public send_* API of a real Association "
+    "with those contexts installed (S2C) and the captured context id and data-set encoding judged by the Trace_Ctx spec with the same predicates (C2S)",
+    "C-STORE of a data set that arrived in each of 5 transfer syntaxes, C-FIND, C-ECHO, N-EVENT-REPORT, N-CREATE for UPS Push (documented substitution), N-GET; 5000 cases in quick (3500 with a usable context), all 36610 in thorough: "
+    "context accepted, abstract syntax, role, encoding of the bytes actually sent (decoded under every transfer syntax), conversion only between uncompressed syntaxes of one byte order.",
+    "Trusted: transport cut at dul.send_pdu (peer = pynetdicom's own decoder); data sets without pixel data. C-STORE sub-operations of C-GET use the same send_c_store path (acceptor-mode role flags are covered by the role pairs).", "§6 C18", "ctx")
+CHECKS["C29"] = ("model_checking",
+    "TLA+ QRMatch spec (PS3.4 C.2.2.2 single value / universal / list of UID / wild card / range matching, hierarchical selection, identifier validity) with MC_QR model-checked by TLC (selection of every case, lemmas "
+    "L_Universal, L_Monotone, L_ListOne); every case is run on the real qrscp database code and C-FIND handler (S2C) and the observed selection, acceptance and number of responses judged by the Trace_QR spec (C2S)",
+    "Three databases (5 instances of 3 patients chosen to separate case, '%', '_', list and range semantics) x 2 information models x {C-FIND, C-GET/C-MOVE} x 4 levels x every identifier within one key (1968 cases) and two keys "
+    "(34224 cases; 2500 sampled in quick) of the plain identifier of its level.",
+    "Trusted: transcription of PS3.4 C.2.2.2 / C.4.1.3.1.1; pydicom configured as qrscp.py configures it; identifiers encoded and decoded as on the wire; the handler is called with an event object carrying what it reads.", "§6 C29", "qr")
+
 NOT_YET = {}
 
 
